@@ -65,6 +65,7 @@ def generate(seed, mode):
     perm_rate = w.choice([0.0, 0.05, 0.15])
     q_rate = w.choice([0.1, 0.3, 0.5])
     nops = w.randint(3, 18)
+    fail_world = h64(seed, 'failing-dependent-world') % 3 == 0 and 'C02' in (mode.get('props') or ['C02'])
     ops = []
     for _ in range(nops):
         k = o.getrandbits(30)
@@ -87,6 +88,11 @@ def generate(seed, mode):
             ops.append({'op': 'rebase_empty', 'n': o.randrange(64), 'k': k})
         elif r < q_rate + 0.24:
             ops.append({'op': 'reload', 'n': o.randrange(64), 'k': k})
+        elif r < q_rate + 0.30 and fail_world:
+            # fault `cb-raise` inside a re-basing: a dependent of the re-based specification fails once while it is told
+            ops.append({'op': 'rebase_fail', 'n': o.randrange(64),
+                        'bases': [o.randrange(64) for _ in range(o.choice([0, 1, 1, 2, 2, 3]))],
+                        'pos': o.randrange(64), 'retry': o.random() < 0.4, 'k': k})
         else:
             ops.append({'op': 'rebase', 'n': o.randrange(64),
                         'bases': [o.randrange(64) for _ in range(o.choice([0, 1, 1, 2, 2, 3]))],
@@ -143,6 +149,8 @@ def execute(program, ctx, mode):
         bases_of[lbl] = list(model_bases)
         if knd != 'fixed':
             order.append(lbl)
+            if any(b in tainted for b in bases_of[lbl]):
+                tainted.add(lbl)
 
     label[id(Interface)] = 'Interface'
     node['Interface'] = Interface
@@ -205,6 +213,47 @@ def execute(program, ctx, mode):
                         ctx.violation('C15', 'accessor-in-notification', 'C15|get|stale-inside-change-notification|%s' % (
                             'absent-but-defined' if got[n] is None else ('present-but-undefined' if want is None else 'not-first-definer')),
                             {'iface': spy.lbl, 'name': n, 'iro': iro})
+
+    # Fault `cb-raise` inside a re-basing (op `rebase_fail`): a simulator-owned dependent of the re-based specification raises
+    # once from changed().  The propagation is aborted there, so everything strictly below the re-based specification may be
+    # stale and is *tainted* (not judged) until a later successful propagation has passed through it with all its ancestors
+    # clean.  The re-based specification itself was recomputed before anybody was told, and everything that is not below it
+    # was never involved: both stay judged -- against the bases the specification shows after the failure (the assignment
+    # either took effect or it did not; anything else is a violation).
+    tainted = set()
+    flakies = []
+
+    class Injected(Exception):
+        pass
+
+    class Flaky:
+        def __init__(self):
+            self.left = 1
+
+        def changed(self, originally_changed):
+            if self.left:
+                self.left -= 1
+                ctx.fault('cb-raise-in-rebase-notification')
+                raise Injected()
+
+    def descendants(x):
+        return {y for y in bases_of if y != x and x in reach(bases_of, y)}
+
+    def propagated(x):
+        """a propagation that started at x has completed: x and everything below it is now exactly as good as its bases"""
+        D = descendants(x) | {x}
+        if not tainted and not any(b in tainted for y in D for b in bases_of[y]):
+            return
+        todo = set(D)
+        while todo:
+            for y in sorted(todo):
+                if not any(b in todo for b in bases_of[y]):
+                    break
+            todo.discard(y)
+            if any(b in tainted for b in bases_of[y]):
+                tainted.add(y)
+            else:
+                tainted.discard(y)
 
     odd_world = h64(program.get('seed') or 0, 'odd-object-world') % 5 == 0
     ifaces_only_world = not (W.get('decls') or [])
@@ -387,6 +436,9 @@ def execute(program, ctx, mode):
         allT = L + ['Interface'] + [l for l in kind if kind[l] == 'fixed' and l != 'Interface']
         for s in L:
             if not (final or selected(k, s)):
+                continue
+            if s in tainted:
+                ctx.probe('tainted-node-not-judged')
                 continue
             S = node[s]
             rs = reach(bases_of, s)
@@ -574,6 +626,8 @@ def execute(program, ctx, mode):
         inv = {id(v): k for k, v in twin.items()}
         ctx.probe('fresh-twin')
         for s in L:
+            if s in tainted:
+                continue
             S, T = node[s], twin[s]
             a = [lab(x) for x in S.__sro__]
             b = [inv.get(id(x), '?') for x in T.__sro__]
@@ -791,6 +845,14 @@ def execute(program, ctx, mode):
         ctx.probe('accessor-%d' % a)
         ctx.log(ctx.step, 'q', a, s, n, r)
 
+    def assign_plain(lbl, bases):
+        """a re-basing during which nothing the simulator owns fails: it must not raise (other than for strict-mode reasons)"""
+        try:
+            node[lbl].__bases__ = bases
+        except (KeyError, RuntimeError, AttributeError, TypeError, ValueError, IndexError) as e:
+            ctx.violation('C02', 'rebase-raises', 'C02|rebase-raises|%s' % type(e).__name__,
+                          {'node': lbl, 'after-failed-assignment': bool(flakies)})
+
     rebased = set()
     for step, op in enumerate(program['ops']):
         ctx.step = step
@@ -890,15 +952,17 @@ def execute(program, ctx, mode):
             s = cands[op['n'] % len(cands)]
             old_bases = list(bases_of[s])
             deps = [d for d in L if s in bases_of[d]]
-            node[s].__bases__ = ()
+            assign_plain(s, ())
             bases_of[s] = []
+            propagated(s)
             iat = {n: ('meth' if isinstance(v, Method) else 'attr') for n, v in (attrs.get(s) or {}).items()}
             itg = dict(rawtags.get(s) or {})
             s2 = new_iface([b for b in old_bases if kind.get(b) == 'I'], iat, itg, invs.get(s) or [], real_name=node[s].__name__)
             for d in deps:
                 nb = [s2 if b == s else b for b in bases_of[d]]
-                node[d].__bases__ = tuple(node[b] for b in nb)
+                assign_plain(d, tuple(node[b] for b in nb))
                 bases_of[d] = nb
+                propagated(d)
             label.pop(id(node[s]), None)
             node[s] = None
             keep[s] = None
@@ -906,6 +970,64 @@ def execute(program, ctx, mode):
             if deps:
                 ctx.probe('interface-reloaded-with-dependents')
             ctx.log(step, 'reload', s, s2, deps)
+        elif name == 'rebase_fail':
+            L = live()
+            if not L or strict_env or 'C02' not in props:
+                continue
+            s = L[op['n'] % len(L)]
+            pool = [l for l in L if kind[l] == 'I'] if kind[s] == 'I' else L
+            mb = list(resolve_bases(s, op['bases'], pool))
+            if kind[s] == 'I' and not mb:
+                mb = ['Interface']
+            old = list(bases_of[s])
+            fl = Flaky()
+            flakies.append(fl)
+            node[s].subscribe(fl)
+            d = node[s]._dependents
+            items = list(d.data.items())
+            if len(items) > 1:
+                # the failing dependent is told at a PRNG-chosen position among the direct dependents
+                it = items.pop()
+                items.insert(op['pos'] % (len(items) + 1), it)
+                d.data.clear()
+                d.data.update(items)
+                if items[-1] is not it:
+                    ctx.probe('failing-dependent-told-before-others')
+            outcome = 'no-raise'
+            try:
+                node[s].__bases__ = tuple(node[b] for b in mb)
+            except Injected:
+                outcome = 'injected'
+            except (KeyError, RuntimeError, AttributeError, TypeError, ValueError, IndexError) as e:
+                ctx.violation('C02', 'rebase-raises', 'C02|rebase-raises|%s' % type(e).__name__, {'node': s, 'bases': mb})
+            actual = [lab(x) for x in node[s].__bases__]
+            if kind[s] == 'I' and not actual:
+                actual = ['Interface']
+            if actual != mb and actual != old:
+                ctx.violation('C02', 'failed-assignment', 'C02|failed-assignment|bases-neither-old-nor-new',
+                              {'node': s, 'old': old, 'new': mb, 'actual': actual})
+            bases_of[s] = actual
+            ctx.probe('rebase-with-failing-dependent')
+            ctx.probe('failed-assignment-took-effect' if actual == mb else 'failed-assignment-rolled-back')
+            below = {y for y in descendants(s) if kind.get(y) != 'fixed'}
+            tainted.update(below)
+            # s itself was recomputed before anybody was told; it is exactly as good as its bases
+            if any(b in tainted for b in actual):
+                tainted.add(s)
+            else:
+                tainted.discard(s)
+            ctx.log(step, 'rebase_fail', s, mb, outcome, actual, sorted(below))
+            if op.get('retry'):
+                # the caller tries the same assignment again; this time nobody fails
+                try:
+                    node[s].__bases__ = tuple(node[b] for b in mb)
+                except (Injected, KeyError, RuntimeError, AttributeError, TypeError, ValueError, IndexError) as e:
+                    ctx.violation('C02', 'retry-raises', 'C02|assignment-repeated-after-a-failed-one-raises|%s' % type(e).__name__,
+                                  {'node': s, 'bases': mb})
+                bases_of[s] = mb
+                propagated(s)
+                ctx.probe('failed-assignment-repeated')
+                ctx.log(step, 'retry', s, mb, [lab(x) for x in node[s].__sro__])
         elif name == 'rebase_empty':
             L = live() or ['Interface']
             try:
@@ -949,7 +1071,7 @@ def execute(program, ctx, mode):
                 old_map[s] = old
                 old_reach = sorted(reach(old_map, s)) + ['Interface']
                 for x in L:
-                    if node[x] is None or not (x == s or s in reach(old_map, x)):
+                    if node[x] is None or x in tainted or not (x == s or s in reach(old_map, x)):
                         continue
                     t = old_reach[prng.randrange(len(old_reach))]
                     if node.get(t) is None:
@@ -975,8 +1097,15 @@ def execute(program, ctx, mode):
                 raised = False
             except ICE:
                 raised = True
+            except (KeyError, RuntimeError, AttributeError, TypeError, ValueError, IndexError) as e:
+                # nothing the simulator owns can fail here: no dependent raises in this operation
+                ctx.violation('C02', 'rebase-raises', 'C02|rebase-raises|%s' % type(e).__name__,
+                              {'node': s, 'bases': mb, 'after-failed-assignment': bool(flakies)})
             if not raised:
+                propagated(s)
                 for x, t in primed:
+                    if x in tainted:
+                        continue
                     want = (t == x) or (t in reach(bases_of, x)) or t == 'Interface'
                     if bool(node[x].isOrExtends(node[t])) != want:
                         ctx.violation('C02', 'isOrExtends-primed', 'C02|isOrExtends|asked-right-before-and-right-after-the-rebasing|%s' % (
